@@ -4,7 +4,7 @@
    the last newline), so every reported location is a position of the source:
    inside a line or immediately at its end. *)
 From Coq Require Import ZArith List Bool Lia.
-From Rscel Require Import Base.Prims Base.F64 Base.Text Model.Value Model.Lexer Model.Ast Proofs.Literals.
+From Rscel Require Import Base.Prims Base.F64 Base.Text Model.Value Model.Lexer Model.Ast Model.Parser Proofs.Literals.
 Import ListNotations.
 Open Scope Z_scope.
 
@@ -131,4 +131,16 @@ Proof.
   induction pre as [|c r IH]; intros l.
   - cbn. destruct l. cbn. f_equal. lia.
   - cbn [loc_after since_nl]. rewrite IH. unfold count_nl. cbn [filter]. destruct (c =? 10); cbn [l_line l_col length]; f_equal; lia.
+Qed.
+
+(** A syntax error inside an f-string segment is reported at the start of the
+    literal, never at the segment-relative position of the nested parser. *)
+Theorem segment_error_at_literal rec_src at_ : forall segs t l,
+  check_segments rec_src at_ segs t = PErr l -> l = at_.
+Proof.
+  induction segs as [|sg r IH]; intros t l H; cbn [check_segments] in H.
+  - discriminate H.
+  - destruct sg as [s|s]; [exact (IH t l H)|].
+    destruct (rec_src s) as [u t'|l'|]; [exact (IH t l H)| |discriminate H].
+    unfold fail_at in H. congruence.
 Qed.
